@@ -25,7 +25,7 @@ NoResult == [k |-> "none", t |-> "", v |-> <<>>, b |-> FALSE, mro |-> <<>>]
 (* accepted-with-value / rejected: the outcome the properties compare          *)
 Outcome(r) == IF IsStrRet(r) THEN <<"acc", r.v>> ELSE <<"rej">>
 
-Fresh(tid) == [tid |-> tid, o |-> "", v |-> NoResult, c |-> NoResult, c2 |-> NoResult,
+Fresh(tid) == [tid |-> tid, o |-> "", m |-> "", v |-> NoResult, c |-> NoResult, c2 |-> NoResult,
                f |-> NoResult, fo |-> ""]
 
 (* ---- exclusions that the properties themselves name (constants of the spec) ---- *)
@@ -37,7 +37,7 @@ C15Excluded == {"de.handelsregisternummer", "mx.rfc", "es.referenciacatastral",
 (* ---- C01 ------------------------------------------------------------------------ *)
 V1(e)    == e.a \in {"validate", "validate2"} => (IsStrRet(e.r) \/ IsVE(e.r))
 V2(e)    == e.a = "is_valid" => IsBoolRet(e.r)
-V3(e, s) == (e.a = "is_valid" /\ s.v.k # "none" /\ s.o = e.o /\ IsBoolRet(e.r))
+V3(e, s) == (e.a = "is_valid" /\ s.v.k # "none" /\ s.o = e.o /\ s.m = e.m /\ IsBoolRet(e.r))
               => (e.r.b = IsRet(s.v))
 
 (* ---- C02 ------------------------------------------------------------------------ *)
@@ -59,7 +59,7 @@ M2(e, s) == (e.a = "validate_f" /\ IsStrRet(s.f)) => e.x = s.f.v
 M3(e, s) == (e.a = "format_v" /\ IsStrRet(s.v)) => e.x = s.v.v
 
 Apply(e, s) ==
-  CASE e.a = "validate"  -> [s EXCEPT !.v = e.r, !.o = e.o]
+  CASE e.a = "validate"  -> [s EXCEPT !.v = e.r, !.o = e.o, !.m = e.m]
     [] e.a = "compact"   -> [s EXCEPT !.c = e.r]
     [] e.a = "compact2"  -> [s EXCEPT !.c2 = e.r]
     [] e.a = "format"    -> [s EXCEPT !.f = e.r, !.fo = e.o]
